@@ -19,11 +19,39 @@
 // of the statement (None when out of range), a call r.M(args) of another translated method of the
 // same struct is hoisted likewise and threads the record. A hoisted call must be the whole
 // expression (or its negation); index reads must not sit under && or ||.
+//
+// Extended mode (config "gres": true; only for configs that ask for it - the output of the others is unchanged).
+// Monadic functions return `gres (record * results)` with GOk / GPanic (Go run-time panic) / GFuel (a loop ran
+// out of fuel: an artefact, distinct from a panic); every function that contains a loop or calls one that
+// does takes a first parameter `fuel : nat`, handed unchanged to every loop and callee. In addition to the above:
+//   - for init; cond; post {} / for cond {} / for {} : `gloop fuel step state` (Lib/GoOps.v); the loop-carried
+//     state is the receiver record plus the locals in scope that the body or post statement assigns (sorted by
+//     name); break, continue (runs the post statement) and return inside loops (GBreak / GNext / GRet);
+//     nested loops; `for k, b := range p` over a []byte parameter that the body does not store into runs a
+//     hidden index from 0 to len(p) (k, b are per-iteration copies);
+//   - switch x { case a, b: ... default: ... } and switch { case cond: ... } as an if/else-if chain (tag
+//     evaluated once, default last, break leaves the switch, no fallthrough);
+//   - Go int / int64 (variables, fields, constants declared "name:s64"): the two's complement representative
+//     in [0, 2^64); + - * & | ^ &^ << wrap as for uint64, < <= > >= are signed (gslt / gsle), >> and / are
+//     rejected; len() is an int; an untyped constant bound by := is an int; conversions int(x), uintN(int);
+//   - byte arrays [N]byte as fields (a list; the record invariant length = N is the user's), []byte
+//     parameters (list N) and named results (locals initialised to the zero value; bare return);
+//   - stores x[i] = e into byte slice/array fields and []byte parameters, bounds-checked (gset, gsets for an
+//     int index: negative or >= len is a panic), right-hand side evaluated first; a[lo:hi] of a byte ARRAY
+//     (gslice(s)); copy(p, src) into a []byte parameter (gcopy); make([]byte, n) assigned to a slice field
+//     (gmake(s)); a []byte parameter that the body stores or copies into is returned after the results;
+//   - character literals; error values and constants written pkg.Name;
+//   - seams (config "seams"): t.f.M(args) for the interface-typed field f (modelled as "is non-nil"), or x.M(args)
+//     for a parameter x of the seam's interface type, appends GEv "M" [args] to the record's extra field
+//     `trace` (most recent first) when the method is marked "record"; values returned by M (a, b = x.M(..))
+//     are extra parameters s_M_0, s_M_1.. of the translated function; a call on a nil reference is a panic.
+// Variables of inner scopes must not shadow variables of enclosing scopes (rejected).
 package main
 
 import (
 	"encoding/json"
 	"sort"
+	"strconv"
 	"fmt"
 	"go/ast"
 	"go/parser"
@@ -49,11 +77,30 @@ type config struct {
 	Errors  map[string]string `json:"errors"`  // Go error var name -> tag string
 	Structs map[string]string `json:"structs"` // struct type name -> file (relative to repo root) declaring it
 	Opaque  map[string][]string `json:"opaque"` // struct type name -> fields of interface/pointer type, modelled as "is non-nil"
+	Gres    bool                `json:"gres"`   // extended mode: results in gres (GOk | GPanic | GFuel), loops, stores, switch, int, seams
+	Seams   map[string]seamSpec `json:"seams"`  // struct type name -> the interface-typed field whose method calls are recorded as events
+}
+
+// seamSpec describes calls that leave the translated code through an interface value: t.<Field>.M(args) (or
+// x.M(args) for a parameter x whose type is written Iface) appends the event GEv "M" [args] to the trace
+// field of the record when Record is set; the values M returns (unsigned integers of the listed widths) are
+// extra parameters s_M_0, s_M_1 ... of the translated function.  A call on a nil reference panics.
+type seamMethod struct {
+	Record  bool  `json:"record"`
+	Results []int `json:"results"`
+}
+
+type seamSpec struct {
+	Field   string                `json:"field"`
+	Iface   string                `json:"iface"`
+	Methods map[string]seamMethod `json:"methods"`
 }
 
 type sfield struct {
 	name  string
-	width int // >0 unsigned integer width, -4 = []byte, -6 = opaque reference (bool: non-nil)
+	width int // >0 integer width, -4 = []byte or [N]byte, -6 = opaque reference (bool: non-nil), -7 = the event trace (seams)
+	signed bool
+	array  bool // [N]byte: slicing allowed (cap = len)
 }
 
 var structFields = map[string][]sfield{}
@@ -62,8 +109,10 @@ var structPkg = map[string]string{}
 var cfg config
 
 type tinfo struct {
-	width int    // 0 = untyped constant, -1 = bool, -2 = error, -3 = unknown
+	width int    // 0 = untyped constant, -1 = bool, -2 = error, -3 = unknown, -4 = byte slice/array, -6 = opaque reference
 	named string // named type for method resolution
+	signed bool  // Go int / int64: two's complement in [0, 2^64), signed comparisons
+	array bool   // byte array (slicing allowed)
 }
 
 type env struct {
@@ -100,6 +149,8 @@ func typeOf(e ast.Expr, pkg string) tinfo {
 			return tinfo{width: -1}
 		case "uintptr", "uint64", "uint":
 			return tinfo{width: 64}
+		case "int", "int64":
+			return tinfo{width: 64, signed: true}
 		case "uint32":
 			return tinfo{width: 32}
 		case "uint16":
@@ -144,9 +195,16 @@ func splitNameWidth(s string) (string, int) {
 	parts := strings.Split(s, ":")
 	w := 64
 	if len(parts) > 1 {
-		fmt.Sscanf(parts[1], "%d", &w)
+		fmt.Sscanf(strings.TrimPrefix(parts[1], "s"), "%d", &w)
 	}
 	return parts[0], w
+}
+
+// constInfo: "coqname:width" or "coqname:s64" (a constant used at type int)
+func constInfo(s string) (string, tinfo) {
+	n, w := splitNameWidth(s)
+	parts := strings.Split(s, ":")
+	return n, tinfo{width: w, signed: len(parts) > 1 && strings.HasPrefix(parts[1], "s")}
 }
 
 type translator struct {
@@ -162,6 +220,208 @@ type translator struct {
 	ntmp     int
 	hoistedCall bool
 	noHoist  int // >0 while under the right operand of && / ||
+	// extended mode (config "gres")
+	cx        ctx
+	usesFuel  bool           // the function contains a loop or calls a function that does
+	nloop     int
+	named     []string       // named results (Go names), "" when unnamed
+	inout     []string       // []byte parameters the body stores into: returned after the results
+	seamUsed  map[string]int // s_M_i -> width: seam results used, become parameters
+	seamRecv  string         // Coq term of the seam reference while translating a tuple assignment from a seam call
+}
+
+// ctx: where break / continue / return lead at the current point of the translation
+type ctx struct {
+	brk       func(en *env) string
+	cont      func(en *env) string
+	loopDepth int // >0: inside a loop body, return produces GRet
+}
+
+func (tr *translator) withCtx(c ctx, f func() string) string {
+	old := tr.cx
+	tr.cx = c
+	s := f()
+	tr.cx = old
+	return s
+}
+
+// capture makes a continuation run under the context current now, whenever it is invoked
+func (tr *translator) capture(k func(en *env) string) func(en *env) string {
+	c := tr.cx
+	return func(en *env) string { return tr.withCtx(c, func() string { return k(en) }) }
+}
+
+func panicTok() string {
+	if cfg.Gres {
+		return "GPanic"
+	}
+	return "None"
+}
+
+// matchOpt opens `match <opt> with None => panic | Some <x> =>` (closed by wrapPre)
+func matchOpt(opt, x string) string {
+	return fmt.Sprintf("match %s with None => %s | Some %s =>", opt, panicTok(), x)
+}
+
+func coqTy(ti tinfo) string {
+	switch {
+	case ti.width >= 0:
+		return "N"
+	case ti.width == -1 || ti.width == -6:
+		return "bool"
+	case ti.width == -2:
+		return "option string"
+	case ti.width == -4:
+		return "list N"
+	}
+	fail("no Coq type for type code %d", ti.width)
+	return ""
+}
+
+func tupleOf(parts []string, empty string) string {
+	if len(parts) == 0 {
+		return empty
+	}
+	if len(parts) == 1 {
+		return parts[0]
+	}
+	return "(" + strings.Join(parts, ", ") + ")"
+}
+
+func prodOf(parts []string) string {
+	if len(parts) == 0 {
+		return "unit"
+	}
+	if len(parts) == 1 {
+		return parts[0]
+	}
+	return "(" + strings.Join(parts, " * ") + ")"
+}
+
+// resultTy: the Coq type of what a monadic function returns inside GOk
+func (tr *translator) resultTy(en *env) string {
+	var parts []string
+	for _, r := range tr.results {
+		parts = append(parts, coqTy(r))
+	}
+	for range tr.inout {
+		parts = append(parts, "list N")
+	}
+	return "(" + recName(structPkg[tr.mon], tr.mon) + " * " + prodOf(parts) + ")%type"
+}
+
+// retWrap: a finished result r (record, values) leaves the function from the current point
+func (tr *translator) retWrap(r string) string {
+	if !cfg.Gres {
+		return "(Some " + r + ")"
+	}
+	if tr.cx.loopDepth > 0 {
+		return "(GOk (GRet " + r + "))"
+	}
+	return "(GOk " + r + ")"
+}
+
+// assigned collects the local variables (Go names) that the statements assign, store into or copy into
+func assigned(stmts []ast.Stmt, out map[string]bool) {
+	lhs := func(e ast.Expr) {
+		switch l := e.(type) {
+		case *ast.Ident:
+			out[l.Name] = true
+		case *ast.IndexExpr:
+			if id, ok := l.X.(*ast.Ident); ok {
+				out[id.Name] = true
+			}
+		}
+	}
+	for _, st := range stmts {
+		if st == nil {
+			continue
+		}
+		ast.Inspect(st, func(n ast.Node) bool {
+			switch s := n.(type) {
+			case *ast.AssignStmt:
+				for _, l := range s.Lhs {
+					lhs(l)
+				}
+			case *ast.IncDecStmt:
+				lhs(s.X)
+			case *ast.RangeStmt:
+				if s.Key != nil {
+					lhs(s.Key)
+				}
+				if s.Value != nil {
+					lhs(s.Value)
+				}
+			case *ast.CallExpr:
+				if id, ok := s.Fun.(*ast.Ident); ok && id.Name == "copy" && len(s.Args) == 2 {
+					lhs(s.Args[0])
+				}
+			}
+			return true
+		})
+	}
+}
+
+// carried: the variables in scope at a loop that the loop assigns (sorted), i.e. the loop-carried locals
+func carried(en *env, stmts []ast.Stmt) []string {
+	as := map[string]bool{}
+	assigned(stmts, as)
+	var names []string
+	for n := range as {
+		if _, ok := en.vars[n]; ok {
+			names = append(names, n)
+		}
+	}
+	sort.Strings(names)
+	return names
+}
+
+// seam returns the seam of the struct being translated
+func (tr *translator) seam() (seamSpec, bool) {
+	if tr.mon == "" {
+		return seamSpec{}, false
+	}
+	sp, ok := cfg.Seams[tr.mon]
+	return sp, ok
+}
+
+// seamCall recognises t.<field>.M(args) and x.M(args) (x a parameter of the seam's interface type)
+func (tr *translator) seamCall(e ast.Expr, en *env) (recv string, name string, m seamMethod, call *ast.CallExpr, ok bool) {
+	sp, has := tr.seam()
+	if !has {
+		return
+	}
+	c, isCall := e.(*ast.CallExpr)
+	if !isCall {
+		return
+	}
+	sel, isSel := c.Fun.(*ast.SelectorExpr)
+	if !isSel {
+		return
+	}
+	if f, isF := tr.recvField(sel.X); isF && f.name == sp.Field {
+		recv = "(" + fieldName(tr.mon, f.name) + " " + v(tr.ptrRecv) + ")"
+	} else if id, isId := sel.X.(*ast.Ident); isId && en.vars[id.Name].width == -6 {
+		recv = v(id.Name)
+	} else {
+		return
+	}
+	mm, known := sp.Methods[sel.Sel.Name]
+	if !known {
+		fail("%s: call of %s through the seam is not described in the config", tr.fn.Name, sel.Sel.Name)
+	}
+	return recv, sel.Sel.Name, mm, c, true
+}
+
+// event: the record with the event GEv "name" [args] pushed on the trace
+func (tr *translator) event(name string, args []string) string {
+	lst := "nil"
+	for i := len(args) - 1; i >= 0; i-- {
+		lst = args[i] + " :: " + lst
+	}
+	tf := sfield{name: "trace", width: -7}
+	cur := "(" + fieldName(tr.mon, "trace") + " " + v(tr.ptrRecv) + ")"
+	return tr.setField(tf, fmt.Sprintf("((GEv %q%%string (%s)) :: %s)", name, lst, cur))
 }
 
 func recName(pkg, st string) string { return "go_" + pkg + "_" + st }
@@ -230,6 +490,13 @@ func (tr *translator) expr(e ast.Expr, en *env) (string, tinfo) {
 			}
 			return "(" + s + ")%N", tinfo{width: 0}
 		}
+		if t.Kind == token.CHAR {
+			r, _, _, err := strconv.UnquoteChar(t.Value[1:len(t.Value)-1], '\'')
+			if err != nil {
+				fail("%s: bad character literal %s", tr.fn.Name, t.Value)
+			}
+			return fmt.Sprintf("(%d)%%N", r), tinfo{width: 0}
+		}
 	case *ast.Ident:
 		if t.Name == "true" || t.Name == "false" {
 			return t.Name, tinfo{width: -1}
@@ -240,26 +507,30 @@ func (tr *translator) expr(e ast.Expr, en *env) (string, tinfo) {
 		if ti, ok := en.vars[t.Name]; ok {
 			return v(t.Name), ti
 		}
+		if w, ok := tr.seamUsed[t.Name]; ok && strings.HasPrefix(t.Name, "s_") {
+			return t.Name, tinfo{width: w}
+		}
 		if g, ok := cfg.Globals[t.Name]; ok {
 			_, w := splitNameWidth(g)
 			tr.usedGlob[t.Name] = true
 			return "g_" + t.Name, tinfo{width: w}
 		}
 		if c, ok := cfg.Consts[tr.pkg+"."+t.Name]; ok {
-			n, w := splitNameWidth(c)
-			return n, tinfo{width: w}
+			return constInfo(c)
 		}
 		if tag, ok := cfg.Errors[t.Name]; ok {
 			return fmt.Sprintf("(Some %q%%string)", tag), tinfo{width: -2}
 		}
 	case *ast.SelectorExpr:
 		if f, ok := tr.recvField(t); ok {
-			return "(" + fieldName(tr.mon, f.name) + " " + v(tr.ptrRecv) + ")", tinfo{width: f.width}
+			return "(" + fieldName(tr.mon, f.name) + " " + v(tr.ptrRecv) + ")", tinfo{width: f.width, signed: f.signed, array: f.array}
 		}
 		txt := exprText(t)
 		if c, ok := cfg.Consts[txt]; ok {
-			n, w := splitNameWidth(c)
-			return n, tinfo{width: w}
+			return constInfo(c)
+		}
+		if tag, ok := cfg.Errors[txt]; ok {
+			return fmt.Sprintf("(Some %q%%string)", tag), tinfo{width: -2}
 		}
 	case *ast.IndexExpr:
 		if tr.mon != "" {
@@ -268,10 +539,43 @@ func (tr *translator) expr(e ast.Expr, en *env) (string, tinfo) {
 				if tr.noHoist > 0 {
 					fail("%s: index expression under && or ||", tr.fn.Name)
 				}
-				is, _ := tr.expr(t.Index, en)
+				is, it := tr.expr(t.Index, en)
 				tmp := tr.tmp()
-				tr.pre = append(tr.pre, fmt.Sprintf("match gidx %s %s with None => None | Some %s =>", xs, is, tmp))
+				if it.signed {
+					tr.pre = append(tr.pre, matchOpt(fmt.Sprintf("gidxs %d %s %s", it.width, xs, is), tmp))
+				} else {
+					tr.pre = append(tr.pre, fmt.Sprintf("match gidx %s %s with None => %s | Some %s =>", xs, is, panicTok(), tmp))
+				}
 				return tmp, tinfo{width: 8}
+			}
+		}
+	case *ast.SliceExpr:
+		// a[lo:hi] of a byte ARRAY (cap = len): bounds-checked, hoisted
+		if tr.mon != "" && cfg.Gres && !t.Slice3 {
+			xs, xt := tr.expr(t.X, en)
+			if xt.width == -4 && xt.array {
+				if tr.noHoist > 0 {
+					fail("%s: slice expression under && or ||", tr.fn.Name)
+				}
+				lo, hi := "0", "(glen "+xs+")"
+				sg := false
+				if t.Low != nil {
+					var lt tinfo
+					lo, lt = tr.expr(t.Low, en)
+					sg = sg || lt.signed
+				}
+				if t.High != nil {
+					var ht tinfo
+					hi, ht = tr.expr(t.High, en)
+					sg = sg || ht.signed
+				}
+				tmp := tr.tmp()
+				if sg {
+					tr.pre = append(tr.pre, matchOpt(fmt.Sprintf("gslices 64 %s %s %s", xs, lo, hi), tmp))
+				} else {
+					tr.pre = append(tr.pre, matchOpt(fmt.Sprintf("gslice %s %s %s", xs, lo, hi), tmp))
+				}
+				return tmp, tinfo{width: -4}
 			}
 		}
 	case *ast.StarExpr:
@@ -339,6 +643,9 @@ func (tr *translator) expr(e ast.Expr, en *env) (string, tinfo) {
 		case token.SHL:
 			return tr.wrap(w, "(N.shiftl "+xs+" "+ys+")"), ti
 		case token.SHR:
+			if ti.signed {
+				fail("%s: >> on a signed integer", tr.fn.Name)
+			}
 			return "(N.shiftr " + xs + " " + ys + ")", ti
 		case token.EQL:
 			if xt.width == -6 && ys == "None" {
@@ -362,14 +669,33 @@ func (tr *translator) expr(e ast.Expr, en *env) (string, tinfo) {
 				return "(negb (Bool.eqb " + xs + " " + ys + "))", tinfo{width: -1}
 			}
 			return "(negb (" + xs + " =? " + ys + "))", tinfo{width: -1}
-		case token.LSS:
-			return "(" + xs + " <? " + ys + ")", tinfo{width: -1}
-		case token.LEQ:
-			return "(" + xs + " <=? " + ys + ")", tinfo{width: -1}
-		case token.GTR:
-			return "(" + ys + " <? " + xs + ")", tinfo{width: -1}
-		case token.GEQ:
-			return "(" + ys + " <=? " + xs + ")", tinfo{width: -1}
+		case token.LSS, token.LEQ, token.GTR, token.GEQ:
+			if xt.signed || yt.signed {
+				// Go int: two's complement order
+				if (xt.width > 0 && !xt.signed) || (yt.width > 0 && !yt.signed) {
+					fail("%s: comparison of a signed with an unsigned integer", tr.fn.Name)
+				}
+				switch t.Op {
+				case token.LSS:
+					return fmt.Sprintf("(gslt %d %s %s)", w, xs, ys), tinfo{width: -1}
+				case token.LEQ:
+					return fmt.Sprintf("(gsle %d %s %s)", w, xs, ys), tinfo{width: -1}
+				case token.GTR:
+					return fmt.Sprintf("(gslt %d %s %s)", w, ys, xs), tinfo{width: -1}
+				default:
+					return fmt.Sprintf("(gsle %d %s %s)", w, ys, xs), tinfo{width: -1}
+				}
+			}
+			switch t.Op {
+			case token.LSS:
+				return "(" + xs + " <? " + ys + ")", tinfo{width: -1}
+			case token.LEQ:
+				return "(" + xs + " <=? " + ys + ")", tinfo{width: -1}
+			case token.GTR:
+				return "(" + ys + " <? " + xs + ")", tinfo{width: -1}
+			default:
+				return "(" + ys + " <=? " + xs + ")", tinfo{width: -1}
+			}
 		case token.LAND:
 			return "(" + xs + " && " + ys + ")", tinfo{width: -1}
 		case token.LOR:
@@ -380,7 +706,26 @@ func (tr *translator) expr(e ast.Expr, en *env) (string, tinfo) {
 		if id, ok := t.Fun.(*ast.Ident); ok && id.Name == "len" && len(t.Args) == 1 && tr.mon != "" {
 			xs, xt := tr.expr(t.Args[0], en)
 			if xt.width == -4 {
+				if cfg.Gres {
+					return "(glen " + xs + ")", tinfo{width: 64, signed: true} // len is an int
+				}
 				return "(glen " + xs + ")", tinfo{width: 0}
+			}
+		}
+		// make([]byte, n): n zero bytes (a negative or huge n is a panic)
+		if id, ok := t.Fun.(*ast.Ident); ok && id.Name == "make" && len(t.Args) == 2 && cfg.Gres && tr.mon != "" {
+			if at, ok := t.Args[0].(*ast.ArrayType); ok && at.Len == nil && typeOf(at.Elt, tr.pkg).width == 8 {
+				if tr.noHoist > 0 {
+					fail("%s: make under && or ||", tr.fn.Name)
+				}
+				ns, nt := tr.expr(t.Args[1], en)
+				tmp := tr.tmp()
+				if nt.signed {
+					tr.pre = append(tr.pre, matchOpt(fmt.Sprintf("gmakes %d %s", nt.width, ns), tmp))
+				} else {
+					tr.pre = append(tr.pre, matchOpt(fmt.Sprintf("gmake %s", ns), tmp))
+				}
+				return tmp, tinfo{width: -4}
 			}
 		}
 		// call of another translated method on the struct receiver: hoisted, threads the record
@@ -396,6 +741,9 @@ func (tr *translator) expr(e ast.Expr, en *env) (string, tinfo) {
 						args = append(args, as)
 					}
 					name := coqName(spec.Pkg, spec.Recv, spec.Name)
+					if monInout[name] {
+						fail("%s: call of %s, which stores into a slice parameter", tr.fn.Name, spec.Name)
+					}
 					rts := monResults[name]
 					var pats []string
 					var first string
@@ -416,7 +764,16 @@ func (tr *translator) expr(e ast.Expr, en *env) (string, tinfo) {
 					if len(pats) == 0 {
 						pat = "_"
 					}
-					tr.pre = append(tr.pre, fmt.Sprintf("match %s %s with None => None | Some (%s, %s) =>", name, strings.Join(append([]string{v(tr.ptrRecv)}, args...), " "), v(tr.ptrRecv), pat))
+					if cfg.Gres {
+						callee := name
+						if monFuel[name] {
+							callee += " fuel"
+							tr.usesFuel = true
+						}
+						tr.pre = append(tr.pre, fmt.Sprintf("match %s %s with GPanic => GPanic | GFuel => GFuel | GOk (%s, %s) =>", callee, strings.Join(append([]string{v(tr.ptrRecv)}, args...), " "), v(tr.ptrRecv), pat))
+					} else {
+						tr.pre = append(tr.pre, fmt.Sprintf("match %s %s with None => None | Some (%s, %s) =>", name, strings.Join(append([]string{v(tr.ptrRecv)}, args...), " "), v(tr.ptrRecv), pat))
+					}
 					tr.hoistedCall = true
 					if len(rts) > 1 {
 						// multi-value call: only usable through a tuple assignment (not supported) or as a statement
@@ -475,16 +832,32 @@ func (tr *translator) expr(e ast.Expr, en *env) (string, tinfo) {
 
 var resultTypes = map[string]tinfo{}
 var monResults = map[string][]tinfo{}
+var monInout = map[string]bool{}
+var monFuel = map[string]bool{}
 
 func (tr *translator) ret(vals []string, en *env) string {
 	if tr.mon != "" {
+		if cfg.Gres {
+			if len(vals) == 0 && len(tr.results) > 0 {
+				// fall off the end is impossible with results; a bare return yields the named results
+				for _, n := range tr.named {
+					if n == "" {
+						fail("%s: return without values", tr.fn.Name)
+					}
+					vals = append(vals, v(n))
+				}
+			}
+			for _, p := range tr.inout {
+				vals = append(vals, v(p))
+			}
+		}
 		r := "tt"
 		if len(vals) == 1 {
 			r = vals[0]
 		} else if len(vals) > 1 {
 			r = "(" + strings.Join(vals, ", ") + ")"
 		}
-		return "(Some (" + v(tr.ptrRecv) + ", " + r + "))"
+		return tr.retWrap("(" + v(tr.ptrRecv) + ", " + r + ")")
 	}
 	var parts []string
 	for _, g := range tr.globals {
@@ -552,7 +925,7 @@ func (tr *translator) block(stmts []ast.Stmt, en *env, k func(en *env) string) s
 		pre := tr.takePre(s.Results...)
 		if len(s.Results) > 1 && len(pre) > 0 {
 			for _, p := range pre {
-				if !strings.HasPrefix(p, "match gidx") {
+				if !strings.HasPrefix(p, "match g") {
 					fail("%s: method call inside a multi-value return", tr.fn.Name)
 				}
 			}
@@ -574,12 +947,75 @@ func (tr *translator) block(stmts []ast.Stmt, en *env, k func(en *env) string) s
 			}
 			return tr.block(append(seq, stmts[1:]...), en, k)
 		}
+		if len(s.Rhs) == 1 && len(s.Lhs) > 1 && s.Tok == token.ASSIGN && cfg.Gres {
+			// a, b = x.M(args) through the seam: the results are parameters s_M_i of the translation
+			if recv, name, m, call, ok := tr.seamCall(s.Rhs[0], en); ok {
+				if len(m.Results) != len(s.Lhs) {
+					fail("%s: %s returns %d values in the config", tr.fn.Name, name, len(m.Results))
+				}
+				var args []string
+				for _, a := range call.Args {
+					as, _ := tr.expr(a, en)
+					args = append(args, as)
+				}
+				pre := tr.takePre()
+				var seq []ast.Stmt
+				for i, l := range s.Lhs {
+					sv := fmt.Sprintf("s_%s_%d", name, i)
+					tr.seamUsed[sv] = m.Results[i]
+					seq = append(seq, &ast.AssignStmt{Lhs: []ast.Expr{l}, Tok: token.ASSIGN, Rhs: []ast.Expr{ast.NewIdent(sv)}})
+				}
+				body := ""
+				if m.Record {
+					body = "let " + v(tr.ptrRecv) + " := " + tr.event(name, args) + " in\n  "
+				}
+				body += tr.block(append(seq, stmts[1:]...), en, k)
+				return tr.wrapPre(pre, "if "+recv+"\n  then ("+body+")\n  else (GPanic)")
+			}
+		}
 		if len(s.Lhs) != 1 || len(s.Rhs) != 1 {
 			fail("%s: multiple assignment not supported", tr.fn.Name)
+		}
+		if ix, ok := s.Lhs[0].(*ast.IndexExpr); ok && cfg.Gres && tr.mon != "" && s.Tok == token.ASSIGN {
+			// x[i] = e : the right-hand side is evaluated first, then the bounds-checked store
+			rhs, rt := tr.expr(s.Rhs[0], en)
+			base, bt := tr.expr(ix.X, en)
+			if bt.width != -4 {
+				fail("%s: store into something that is not a byte slice", tr.fn.Name)
+			}
+			is, it := tr.expr(ix.Index, en)
+			pre := tr.takePre(s.Rhs[0])
+			val := rhs
+			if rt.width == 0 {
+				val = tr.wrap(8, rhs)
+			}
+			tmp := tr.tmp()
+			if it.signed {
+				pre = append(pre, matchOpt(fmt.Sprintf("gsets %d %s %s %s", it.width, base, is, val), tmp))
+			} else {
+				pre = append(pre, matchOpt(fmt.Sprintf("gset %s %s %s", base, is, val), tmp))
+			}
+			if f, ok := tr.recvField(ix.X); ok {
+				return tr.wrapPre(pre, "let "+v(tr.ptrRecv)+" := "+tr.setField(f, tmp)+" in\n  "+rest(en))
+			}
+			id, ok := ix.X.(*ast.Ident)
+			if !ok {
+				fail("%s: unsupported store target", tr.fn.Name)
+			}
+			return tr.wrapPre(pre, "let "+v(id.Name)+" := "+tmp+" in\n  "+rest(en))
 		}
 		rhs, rt := tr.expr(s.Rhs[0], en)
 		pre := tr.takePre(s.Rhs[0])
 		if f, ok := tr.recvField(s.Lhs[0]); ok {
+			if cfg.Gres && s.Tok == token.ASSIGN && ((f.width == -4 && !f.array && rt.width == -4) || (f.width == -6 && rt.width == -6)) {
+				// t.f = make(...) (a fresh slice: no aliasing) / t.f = x for a reference
+				if f.width == -4 {
+					if c, isCall := s.Rhs[0].(*ast.CallExpr); !isCall || exprText(c.Fun) != "make" {
+						fail("%s: a slice field may only be assigned a fresh make(...)", tr.fn.Name)
+					}
+				}
+				return tr.wrapPre(pre, "let "+v(tr.ptrRecv)+" := "+tr.setField(f, rhs)+" in\n  "+rest(en))
+			}
 			if f.width <= 0 {
 				fail("%s: assignment to a non-integer field", tr.fn.Name)
 			}
@@ -629,6 +1065,17 @@ func (tr *translator) block(stmts []ast.Stmt, en *env, k func(en *env) string) s
 			lt = rt
 			if lt.width == 0 {
 				lt = tinfo{width: 64} // untyped constant defaults to int; only used for small values
+				if cfg.Gres {
+					lt.signed = true
+				}
+			}
+			if cfg.Gres {
+				if _, dup := en.vars[name]; dup {
+					fail("%s: %s := shadows a variable of an enclosing scope", tr.fn.Name, name)
+				}
+				if lt.width == -4 {
+					fail("%s: %s := of a slice (aliasing)", tr.fn.Name, name)
+				}
 			}
 			en2.vars[name] = lt
 		} else {
@@ -668,6 +1115,35 @@ func (tr *translator) block(stmts []ast.Stmt, en *env, k func(en *env) string) s
 	case *ast.ExprStmt:
 		if tr.mon == "" {
 			fail("%s: expression statement", tr.fn.Name)
+		}
+		if cfg.Gres {
+			// copy(dst, src): dst a local byte slice, src a byte slice value
+			if c, ok := s.X.(*ast.CallExpr); ok && exprText(c.Fun) == "copy" && len(c.Args) == 2 {
+				id, ok := c.Args[0].(*ast.Ident)
+				if !ok || en.vars[id.Name].width != -4 {
+					fail("%s: copy into something that is not a local byte slice", tr.fn.Name)
+				}
+				src, st := tr.expr(c.Args[1], en)
+				if st.width != -4 {
+					fail("%s: copy from something that is not a byte slice", tr.fn.Name)
+				}
+				pre := tr.takePre(c.Args[1])
+				return tr.wrapPre(pre, "let "+v(id.Name)+" := (gcopy "+v(id.Name)+" "+src+") in\n  "+rest(en))
+			}
+			// a call through the seam: recorded as an event; a nil reference panics
+			if recv, name, m, call, ok := tr.seamCall(s.X, en); ok {
+				var args []string
+				for _, a := range call.Args {
+					as, _ := tr.expr(a, en)
+					args = append(args, as)
+				}
+				pre := tr.takePre()
+				body := rest(en)
+				if m.Record {
+					body = "let " + v(tr.ptrRecv) + " := " + tr.event(name, args) + " in\n  " + body
+				}
+				return tr.wrapPre(pre, "if "+recv+"\n  then ("+body+")\n  else (GPanic)")
+			}
 		}
 		tr.expr(s.X, en)
 		if !tr.hoistedCall {
@@ -724,6 +1200,17 @@ func (tr *translator) block(stmts []ast.Stmt, en *env, k func(en *env) string) s
 						ti = vt
 					}
 				}
+				if cfg.Gres {
+					if _, dup := en.vars[n.Name]; dup {
+						fail("%s: var %s shadows a variable of an enclosing scope", tr.fn.Name, n.Name)
+					}
+					if ti.width == 0 {
+						ti = tinfo{width: 64, signed: true}
+					}
+					if ti.width < -2 {
+						fail("%s: var %s of an unsupported type", tr.fn.Name, n.Name)
+					}
+				}
 				en2.vars[n.Name] = ti
 				out += "let " + v(n.Name) + " := " + val + " in\n  "
 			}
@@ -735,24 +1222,224 @@ func (tr *translator) block(stmts []ast.Stmt, en *env, k func(en *env) string) s
 		}
 		c, _ := tr.expr(s.Cond, en)
 		pre := tr.takePre(s.Cond)
-		thn := tr.block(s.Body.List, en, rest)
+		after := rest
+		if cfg.Gres {
+			after = func(*env) string { return rest(en) } // variables of the branches go out of scope
+		}
+		thn := tr.block(s.Body.List, en, after)
 		var els string
 		switch e := s.Else.(type) {
 		case nil:
 			els = rest(en)
 		case *ast.BlockStmt:
-			els = tr.block(e.List, en, rest)
+			els = tr.block(e.List, en, after)
 		case *ast.IfStmt:
-			els = tr.block([]ast.Stmt{e}, en, rest)
+			els = tr.block([]ast.Stmt{e}, en, after)
 		}
 		return tr.wrapPre(pre, "if "+c+"\n  then ("+thn+")\n  else ("+els+")")
 	case *ast.BlockStmt:
 		return tr.block(append(append([]ast.Stmt{}, s.List...), stmts[1:]...), en, k)
 	case *ast.EmptyStmt:
 		return rest(en)
+	case *ast.BranchStmt:
+		if cfg.Gres && s.Label == nil {
+			if s.Tok == token.BREAK && tr.cx.brk != nil {
+				return tr.cx.brk(en)
+			}
+			if s.Tok == token.CONTINUE && tr.cx.cont != nil {
+				return tr.cx.cont(en)
+			}
+		}
+	case *ast.SwitchStmt:
+		if cfg.Gres {
+			return tr.switchStmt(s, en, rest)
+		}
+	case *ast.ForStmt:
+		if cfg.Gres && tr.mon != "" {
+			if s.Init != nil {
+				if as, ok := s.Init.(*ast.AssignStmt); !ok || as.Tok != token.DEFINE {
+					fail("%s: loop initialisation must be a := statement", tr.fn.Name)
+				}
+				return tr.block([]ast.Stmt{s.Init}, en, func(en2 *env) string { return tr.forLoop(s, en2, func(*env) string { return rest(en) }) })
+			}
+			return tr.forLoop(s, en, rest)
+		}
+	case *ast.RangeStmt:
+		if cfg.Gres && tr.mon != "" {
+			return tr.rangeLoop(s, en, rest)
+		}
 	}
 	fail("%s: unsupported statement %T", tr.fn.Name, stmts[0])
 	return ""
+}
+
+// statePat: the loop-carried state (the receiver record and the listed locals) as a pattern/value and its type
+func (tr *translator) statePat(names []string, en *env) (pat string, ty string) {
+	ps := []string{v(tr.ptrRecv)}
+	ts := []string{recName(structPkg[tr.mon], tr.mon)}
+	for _, n := range names {
+		ps = append(ps, v(n))
+		ts = append(ts, coqTy(en.vars[n]))
+	}
+	return tupleOf(ps, ""), prodOf(ts) + "%type"
+}
+
+func letPat(pat string) string {
+	if strings.HasPrefix(pat, "(") {
+		return "let '" + pat + " := st in"
+	}
+	return "let " + pat + " := st in"
+}
+
+// emitLoop: `match gloop fuel (fun st => step) init with ... end`; the state after a normal exit is bound for rest
+func (tr *translator) emitLoop(pat, ty, step string, rest func() string) string {
+	tr.usesFuel = true
+	out := "match gloop (R := " + tr.resultTy(nil) + ") fuel (fun st : " + ty + " => " + letPat(pat) + "\n  " + step + ") " + pat + " with\n"
+	out += "  | GPanic => GPanic | GFuel => GFuel\n"
+	out += "  | GOk (inr r) => " + tr.retWrap("r") + "\n"
+	out += "  | GOk (inl st) => " + letPat(pat) + "\n  " + rest() + "\n  end"
+	return out
+}
+
+// for cond { body } / for ; cond; post { body } (the initialisation has been translated): recursion on fuel
+// through gloop; the state is the receiver record and the locals the loop assigns
+func (tr *translator) forLoop(s *ast.ForStmt, en *env, rest func(*env) string) string {
+	names := carried(en, []ast.Stmt{s.Body, s.Post})
+	pat, ty := tr.statePat(names, en)
+	restC := tr.capture(rest)
+	next := func(*env) string { return "(GOk (GNext " + pat + "))" }
+	brk := func(*env) string { return "(GOk (GBreak " + pat + "))" }
+	cont := next
+	if s.Post != nil {
+		cont = func(*env) string { return tr.block([]ast.Stmt{s.Post}, en, next) }
+	}
+	step := tr.withCtx(ctx{brk: brk, cont: cont, loopDepth: tr.cx.loopDepth + 1}, func() string {
+		c := "true"
+		var pre []string
+		if s.Cond != nil {
+			c, _ = tr.expr(s.Cond, en)
+			pre = tr.takePre(s.Cond)
+		}
+		body := tr.block(s.Body.List, en, cont)
+		return tr.wrapPre(pre, "if "+c+"\n  then ("+body+")\n  else ("+brk(en)+")")
+	})
+	return tr.emitLoop(pat, ty, step, func() string { return restC(en) })
+}
+
+// for k, b := range p over a local byte slice p that the body does not store into: a hidden index runs from 0
+// to len(p); k and b are fresh copies in every iteration
+func (tr *translator) rangeLoop(s *ast.RangeStmt, en *env, rest func(*env) string) string {
+	id, ok := s.X.(*ast.Ident)
+	if !ok || en.vars[id.Name].width != -4 {
+		fail("%s: range over something that is not a local byte slice", tr.fn.Name)
+	}
+	names := carried(en, []ast.Stmt{s.Body})
+	for _, n := range names {
+		if n == id.Name {
+			fail("%s: the loop stores into the slice it ranges over", tr.fn.Name)
+		}
+	}
+	tr.nloop++
+	hidden := fmt.Sprintf("rng%d", tr.nloop)
+	en2 := en.clone()
+	en2.vars[hidden] = tinfo{width: 64, signed: true}
+	bind := func(e ast.Expr, ti tinfo) string {
+		if e == nil {
+			return ""
+		}
+		kid, ok := e.(*ast.Ident)
+		if !ok || (s.Tok != token.DEFINE && kid.Name != "_") {
+			fail("%s: range variables must be declared by the loop", tr.fn.Name)
+		}
+		if kid.Name == "_" {
+			return ""
+		}
+		if _, dup := en.vars[kid.Name]; dup {
+			fail("%s: range variable %s shadows a variable of an enclosing scope", tr.fn.Name, kid.Name)
+		}
+		en2.vars[kid.Name] = ti
+		return kid.Name
+	}
+	key := bind(s.Key, tinfo{width: 64, signed: true})
+	val := bind(s.Value, tinfo{width: 8})
+	all := append(append([]string{}, names...), hidden)
+	pat, ty := tr.statePat(all, en2)
+	restC := tr.capture(rest)
+	nextPat, _ := tr.statePat(append(append([]string{}, names...), "\x00"), en2)
+	nextPat = strings.Replace(nextPat, v("\x00"), "("+v(hidden)+" + 1)", 1)
+	next := func(*env) string { return "(GOk (GNext " + nextPat + "))" }
+	brk := func(*env) string { return "(GOk (GBreak " + pat + "))" }
+	step := tr.withCtx(ctx{brk: brk, cont: next, loopDepth: tr.cx.loopDepth + 1}, func() string {
+		body := ""
+		if key != "" {
+			body += "let " + v(key) + " := " + v(hidden) + " in\n  "
+		}
+		body += tr.block(s.Body.List, en2, next)
+		if val != "" {
+			body = fmt.Sprintf("match gidx %s %s with None => GPanic | Some %s =>\n  %s end", v(id.Name), v(hidden), v(val), body)
+		}
+		return "if (" + v(hidden) + " <? (glen " + v(id.Name) + "))\n  then (" + body + ")\n  else (" + brk(en2) + ")"
+	})
+	loop := tr.emitLoop(pat, ty, step, func() string { return restC(en) })
+	return "let " + v(hidden) + " := 0 in\n  " + loop
+}
+
+// switch: an if / else-if chain in the order of the clauses, default last; the tag is evaluated once;
+// break leaves the switch; fallthrough is not supported
+func (tr *translator) switchStmt(s *ast.SwitchStmt, en *env, rest func(*env) string) string {
+	var seq []ast.Stmt
+	if s.Init != nil {
+		seq = append(seq, s.Init)
+	}
+	var tag ast.Expr
+	if s.Tag != nil {
+		tr.nloop++
+		nm := fmt.Sprintf("sw%d", tr.nloop)
+		seq = append(seq, &ast.AssignStmt{Lhs: []ast.Expr{ast.NewIdent(nm)}, Tok: token.DEFINE, Rhs: []ast.Expr{s.Tag}})
+		tag = ast.NewIdent(nm)
+	}
+	var chain, last *ast.IfStmt
+	var deflt *ast.BlockStmt
+	for _, c := range s.Body.List {
+		cc := c.(*ast.CaseClause)
+		if cc.List == nil {
+			deflt = &ast.BlockStmt{List: cc.Body}
+			continue
+		}
+		var cond ast.Expr
+		for _, e := range cc.List {
+			var one ast.Expr = e
+			if tag != nil {
+				one = &ast.BinaryExpr{X: tag, Op: token.EQL, Y: e}
+			}
+			if cond == nil {
+				cond = one
+			} else {
+				cond = &ast.BinaryExpr{X: cond, Op: token.LOR, Y: one}
+			}
+		}
+		ifs := &ast.IfStmt{Cond: cond, Body: &ast.BlockStmt{List: cc.Body}}
+		if chain == nil {
+			chain = ifs
+		} else {
+			last.Else = ifs
+		}
+		last = ifs
+	}
+	if chain == nil {
+		if deflt != nil {
+			seq = append(seq, deflt)
+		}
+	} else {
+		if deflt != nil {
+			last.Else = deflt
+		}
+		seq = append(seq, chain)
+	}
+	restC := tr.capture(func(*env) string { return rest(en) })
+	return tr.withCtx(ctx{brk: restC, cont: tr.cx.cont, loopDepth: tr.cx.loopDepth}, func() string {
+		return tr.block(seq, en, restC)
+	})
 }
 
 func main() {
@@ -790,6 +1477,9 @@ func main() {
 	}
 	fmt.Println("Local Open Scope N_scope.")
 	fmt.Println("Local Open Scope bool_scope.")
+	if cfg.Gres {
+		fmt.Println("Local Open Scope list_scope.")
+	}
 	fmt.Println()
 	var snames []string
 	for st := range cfg.Structs {
@@ -822,12 +1512,17 @@ func main() {
 				found = true
 				for _, fl := range stt.Fields.List {
 					var sf sfield
-					if at, ok := fl.Type.(*ast.ArrayType); ok && at.Len == nil {
+					if at, ok := fl.Type.(*ast.ArrayType); ok && (at.Len == nil || cfg.Gres) {
 						if el := typeOf(at.Elt, file.Name.Name); el.width == 8 {
 							sf.width = -4
+							sf.array = at.Len != nil
 						}
 					} else if ti := typeOf(fl.Type, file.Name.Name); ti.width > 0 {
+						if ti.signed && !cfg.Gres {
+							fail("struct %s: signed field needs the extended mode", st)
+						}
 						sf.width = ti.width
+						sf.signed = ti.signed
 					}
 					for _, n := range fl.Names {
 						w := sf.width
@@ -839,13 +1534,16 @@ func main() {
 						if w == 0 {
 							fail("struct %s: unsupported type of field %s", st, n.Name)
 						}
-						structFields[st] = append(structFields[st], sfield{name: n.Name, width: w})
+						structFields[st] = append(structFields[st], sfield{name: n.Name, width: w, signed: sf.signed && w > 0, array: sf.array && w == -4})
 					}
 				}
 			}
 		}
 		if !found {
 			fail("struct %s not found in %s", st, cfg.Structs[st])
+		}
+		if _, ok := cfg.Seams[st]; ok && cfg.Gres {
+			structFields[st] = append(structFields[st], sfield{name: "trace", width: -7})
 		}
 		rn := recName(structPkg[st], st)
 		var fds []string
@@ -856,6 +1554,9 @@ func main() {
 			}
 			if f.width == -6 {
 				ty = "bool"
+			}
+			if f.width == -7 {
+				ty = "list gevent"
 			}
 			fds = append(fds, fieldName(st, f.name)+" : "+ty)
 		}
@@ -895,7 +1596,7 @@ func main() {
 		if decl == nil {
 			fail("function %s.%s not found in %s", spec.Recv, spec.Name, spec.File)
 		}
-		tr := &translator{pkg: spec.Pkg, fn: spec, funcs: funcs, usedGlob: map[string]bool{}}
+		tr := &translator{pkg: spec.Pkg, fn: spec, funcs: funcs, usedGlob: map[string]bool{}, seamUsed: map[string]int{}}
 		en := &env{vars: map[string]tinfo{}}
 		var params []string
 		if decl.Recv != nil {
@@ -925,13 +1626,21 @@ func main() {
 		}
 		for _, p := range decl.Type.Params.List {
 			ti := typeOf(p.Type, spec.Pkg)
-			if ti.width == -3 || ti.width == -2 || ti.width < -3 {
+			if cfg.Gres && tr.mon != "" {
+				if at, ok := p.Type.(*ast.ArrayType); ok && at.Len == nil && typeOf(at.Elt, spec.Pkg).width == 8 {
+					ti = tinfo{width: -4} // []byte parameter
+				}
+				if sp, ok := cfg.Seams[tr.mon]; ok && sp.Iface != "" && exprText(p.Type) == sp.Iface {
+					ti = tinfo{width: -6} // a reference of the seam's interface type: "is non-nil"
+				}
+			}
+			if ti.width == -3 || ti.width == -2 || (ti.width < -3 && !cfg.Gres) || ti.width == -5 {
 				fail("%s: unsupported parameter type", spec.Name)
 			}
 			for _, n := range p.Names {
 				en.vars[n.Name] = ti
-				if ti.width == -1 {
-					params = append(params, "("+v(n.Name)+" : bool)")
+				if ti.width < 0 {
+					params = append(params, "("+v(n.Name)+" : "+coqTy(ti)+")")
 				} else {
 					params = append(params, "("+v(n.Name)+" : N)")
 				}
@@ -949,6 +1658,43 @@ func main() {
 				}
 				for i := 0; i < cnt; i++ {
 					tr.results = append(tr.results, ti)
+					if i < len(r.Names) {
+						tr.named = append(tr.named, r.Names[i].Name)
+					} else {
+						tr.named = append(tr.named, "")
+					}
+				}
+			}
+		}
+		namedInit := ""
+		if cfg.Gres && tr.mon != "" {
+			// named results are local variables holding the zero value
+			for i, n := range tr.named {
+				if n == "" || n == "_" {
+					tr.named[i] = ""
+					continue
+				}
+				ti := tr.results[i]
+				en.vars[n] = ti
+				switch {
+				case ti.width > 0:
+					namedInit += "let " + v(n) + " := 0 in\n  "
+				case ti.width == -1:
+					namedInit += "let " + v(n) + " := false in\n  "
+				case ti.width == -2:
+					namedInit += "let " + v(n) + " := (@None string) in\n  "
+				default:
+					fail("%s: unsupported named result", spec.Name)
+				}
+			}
+			// byte-slice parameters the body stores into are returned
+			as := map[string]bool{}
+			assigned(decl.Body.List, as)
+			for _, p := range decl.Type.Params.List {
+				for _, n := range p.Names {
+					if en.vars[n.Name].width == -4 && as[n.Name] {
+						tr.inout = append(tr.inout, n.Name)
+					}
 				}
 			}
 		}
@@ -961,7 +1707,7 @@ func main() {
 				tr.globals = append(tr.globals, g)
 			}
 		}
-		body := tr.block(decl.Body.List, en, func(e2 *env) string { return tr.ret(nil, e2) })
+		body := namedInit + tr.block(decl.Body.List, en, func(e2 *env) string { return tr.ret(nil, e2) })
 		var gparams []string
 		for _, g := range tr.globals {
 			gparams = append(gparams, "(g_"+g+" : N)")
@@ -969,6 +1715,19 @@ func main() {
 		name := coqName(spec.Pkg, spec.Recv, spec.Name)
 		if tr.mon != "" {
 			monResults[name] = tr.results
+			monInout[name] = len(tr.inout) > 0
+			monFuel[name] = tr.usesFuel
+		}
+		if tr.usesFuel {
+			gparams = append([]string{"(fuel : nat)"}, gparams...)
+		}
+		var svs []string
+		for sv := range tr.seamUsed {
+			svs = append(svs, sv)
+		}
+		sort.Strings(svs)
+		for _, sv := range svs {
+			params = append(params, "("+sv+" : N)")
 		}
 		if len(tr.results) == 1 && len(tr.globals) == 0 && tr.ptrRecv == "" {
 			resultTypes[name] = tr.results[0]
